@@ -216,7 +216,93 @@ pub fn run(tier: &str) -> i32 {
     |case, how| (format!("C17 crash={}", how), J::obj().set("state", J::u(case))),
   );
   let counters = rep.add_stage("transition-relation", "256 button states x 4 selections x {latch empty, request latched} x (8 press + 8 release + 256 select-write values) x {Joypad API, IO bus}", r);
-  let transitions = counters[0];
+  let mut transitions = counters[0];
+
+  // ---- histories: the implementation may keep state of its own (a cached copy of the lines,
+  // a remembered previous value) that no single transition from a freshly built state can
+  // show.  Every history of 2 (thorough: 3) actions over the 20-letter alphabet
+  // {press x8, release x8, P1 <- 00/10/20/30} from every (buttons, selection) state; P1 and the
+  // request are judged after every action (the request is collected each time)
+  {
+    let depth: usize = if rep.thorough() { 3 } else { 2 };
+    let na = 20usize;
+    let apply_ref = |r: &mut Ref, a: usize| {
+      if a < 8 {
+        if a < 4 { r.act |= 1 << a } else { r.dir |= 1 << (a - 4) }
+      } else if a < 16 {
+        let b = a - 8;
+        if b < 4 { r.act &= !(1 << b) } else { r.dir &= !(1 << (b - 4)) }
+      } else {
+        r.sel = ((a - 16) as u8) << 4;
+      }
+    };
+    let aname = |a: usize| -> String {
+      if a < 8 { format!("press {}", BNAME[a]) } else if a < 16 { format!("release {}", BNAME[a - 8]) } else { format!("P1<-{:02X}", (a - 16) << 4) }
+    };
+    let total_hist = (na as u64).pow(depth as u32);
+    let opts = PoolOpts { chunk: 8, bitmap_bits: 1 << 16, ..PoolOpts::default() };
+    let r2 = run_pool(
+      n_states,
+      &opts,
+      |_| (),
+      |_, case, ctx| {
+        let buttons = (case & 0xff) as u8;
+        let sel = (((case >> 8) & 3) as u8) << 4;
+        ctx.sample(|| J::obj().set("state", J::s(format!("buttons={:02X} sel={:02X}", buttons, sel))).set("histories", J::s(format!("all {} sequences of {} actions over press/release x8 and 4 select writes, via Joypad and via IO", total_hist, depth))));
+        for h in 0..total_hist {
+          let mut acts = [0usize; 3];
+          let mut x = h;
+          for k in (0..depth).rev() {
+            acts[k] = (x % na as u64) as usize;
+            x /= na as u64;
+          }
+          for via_io in 0..2 {
+            let mut r = Ref { act: buttons & 0x0f, dir: buttons >> 4, sel };
+            let mut j = if via_io == 0 { Some(build(buttons, sel)) } else { None };
+            let mut io = if via_io == 1 { Some(build_io(buttons, sel)) } else { None };
+            for k in 0..depth {
+              let a = acts[k];
+              let before = r.lines();
+              apply_ref(&mut r, a);
+              let want_irq = before & !r.lines() != 0;
+              let (got_p1, got_irq) = if let Some(j) = j.as_mut() {
+                if a < 8 { j.press_button(button(a)) } else if a < 16 { j.release_button(button(a - 8)) } else { j.set_value(((a - 16) as u8) << 4) }
+                (j.get_value() & 0x3f, j.get_interrupt().as_u8() != 0)
+              } else {
+                let io = io.as_mut().unwrap();
+                if a < 8 { io.joypad.press_button(button(a)) } else if a < 16 { io.joypad.release_button(button(a - 8)) } else { io.set_byte(0xFF00, ((a - 16) as u8) << 4) }
+                let p = io.get_byte(0xFF00) & 0x3f;
+                io.run_clock_cycles(ClockCycles(4), &vram, &oam);
+                let i = io.interrupt_flag.as_u8() & 0x10 != 0;
+                io.interrupt_flag.clear(0x10);
+                (p, i)
+              };
+              ctx.count(0, 1);
+              ctx.class(((k as u64) << 12) | ((a.min(16) as u64) << 7) | ((before as u64) << 3) | ((got_irq as u64) << 1) | via_io as u64);
+              if got_p1 != r.p1() || got_irq != want_irq {
+                let aclass = if a < 8 { "press" } else if a < 16 { "release" } else { "select" };
+                let key = if got_p1 != r.p1() {
+                  format!("C17 history action={} field=p1 step={}", aclass, k + 1)
+                } else {
+                  format!("C17 history action={} field=irq kind={} step={}", aclass, if want_irq { "missed" } else { "spurious" }, k + 1)
+                };
+                ctx.violation(&key, || {
+                  J::obj()
+                    .set("case", J::obj().set("buttons", J::u(buttons as u64)).set("sel", J::u(sel as u64)).set("history", J::Arr(acts[..depth].iter().map(|a| J::s(aname(*a))).collect())).set("failing_step", J::u(k as u64 + 1)).set("via", J::s(if via_io == 0 { "joypad" } else { "io" })))
+                    .set("expected", J::obj().set("p1", J::u(r.p1() as u64)).set("irq", J::Bool(want_irq)))
+                    .set("observed", J::obj().set("p1", J::u(got_p1 as u64)).set("irq", J::Bool(got_irq)))
+                });
+                break;
+              }
+            }
+          }
+        }
+      },
+      |case, how| (format!("C17 history crash={}", how), J::obj().set("state", J::u(case))),
+    );
+    let c2 = rep.add_stage("histories", &format!("256 button states x 4 selections x all {} histories of {} actions over 20 letters x {{Joypad API, IO bus}}, P1 and the request judged after every action", total_hist, depth), r2);
+    transitions += c2[0];
+  }
   // power-on state
   {
     let j = Joypad::new();
